@@ -2,33 +2,54 @@
 (***************************************************************************)
 (* Property C10 over the request-level observables of a throttling flow    *)
 (* rule: a set `reqs' of records                                           *)
-(*   [id, arr, iv, res : "pass"|"reject", w, inv, ret, big]                *)
-(* arr = arrival time (clock at invocation), iv = the spacing this request *)
-(* is entitled to demand = ceil(batch * statInterval / threshold), w = wait*)
-(* it was asked to sleep, inv / ret = positions of invocation / return in  *)
-(* the total order of the execution, big = batch exceeds the threshold.    *)
+(*   [id, arr, b, tn, td, res : "pass"|"reject", w, inv, ret]              *)
+(* arr = arrival time (clock at invocation), b = batch count, tn / td =    *)
+(* the THRESHOLD IN FORCE FOR THIS REQUEST (a fraction; it is an argument  *)
+(* of every single check: constant for a Direct rule, but moving from call *)
+(* to call for MemoryAdaptive / WarmUp rules), w = wait it was asked to    *)
+(* sleep, inv / ret = positions of invocation / return in the total order  *)
+(* of the execution.  `si' is the statistic interval of the rule in the    *)
+(* time unit of the records.                                               *)
+(* The spacing a request is entitled to demand is computed from ITS OWN    *)
+(* threshold:  Iv(r, si) = ceil(b * si / (tn/td)).                         *)
 (* passT = arr + w is the assigned pass time.                              *)
 (* Used by Throttle (model level) and Throttle_Trace (real executions).    *)
 (***************************************************************************)
 EXTENDS Integers, FiniteSets
 
+CeilDiv(a, d) == (a + d - 1) \div d          \* a >= 0, d > 0
+\* ceil(b * si * td / tn) without leaving 32-bit integers as long as the result fits (si = q * tn + rem)
+Owed(b, tn, td, si) ==
+    IF b <= 0 \/ tn <= 0 THEN 0
+    ELSE LET x == b * td IN x * (si \div tn) + CeilDiv(x * (si % tn), tn)
+Iv(r, si)     == Owed(r.b, r.tn, r.td, si)
+\* threshold <= 0, or the batch exceeds the threshold of this request: rejected whatever the pacing state is
+Big(r)        == r.tn <= 0 \/ r.b * r.td > r.tn
+
+\* effective threshold <<n, d>> of a MemoryAdaptive rule m = [low, high, lwm, hwm] when the memory usage is mem:
+\* low-memory threshold up to the low water mark, high-memory threshold from the high water mark, linear in between
+MemThr(m, mem) ==
+    IF mem <= m.lwm THEN <<m.low, 1>>
+    ELSE IF mem >= m.hwm THEN <<m.high, 1>>
+    ELSE <<m.low * (m.hwm - m.lwm) + (m.high - m.low) * (mem - m.lwm), m.hwm - m.lwm>>
+
 PassT(r)      == r.arr + r.w
 Admitted(rs)  == { r \in rs : r.res = "pass" }
 \* requests with batch 0 are passed without touching the pacing state: they are outside the spacing order
-Paced(rs)     == { r \in Admitted(rs) : r.iv > 0 }
+Paced(rs, si) == { r \in Admitted(rs) : Iv(r, si) > 0 }
 
 \* consecutive pass times are at least the later request's spacing apart (hence never equal)
-Spacing(rs) ==
-    \A a, b \in Paced(rs) : a.id # b.id =>
-        \/ PassT(b) - PassT(a) >= b.iv
-        \/ PassT(a) - PassT(b) >= a.iv
+Spacing(rs, si) ==
+    \A a, b \in Paced(rs, si) : a.id # b.id =>
+        \/ PassT(b) - PassT(a) >= Iv(b, si)
+        \/ PassT(a) - PassT(b) >= Iv(a, si)
 \* nobody is asked to wait longer than the maximum queueing time
 BoundedWait(rs, maxq) == \A r \in Admitted(rs) : r.w >= 0 /\ r.w <= maxq
 \* a rejection is justified: batch over threshold, or - even counting every admitted request invoked before the
-\* rejected one returned - honouring the spacing would exceed the queueing limit
+\* rejected one returned - honouring the spacing (of the rejected request's own threshold) would exceed the queueing limit
 \* (tol: slack in time units for the float rounding of the spacing in the real code; 0 at model level)
-Justified(r, rs, maxq, tol) ==
-    \/ r.big
-    \/ \E a \in Paced(rs) : a.inv < r.ret /\ PassT(a) + r.iv + tol - r.arr > maxq
-NoSpuriousReject(rs, maxq, tol) == \A r \in rs : r.res = "reject" => Justified(r, rs, maxq, tol)
+Justified(r, rs, si, maxq, tol) ==
+    \/ Big(r)
+    \/ \E a \in Paced(rs, si) : a.inv < r.ret /\ PassT(a) + Iv(r, si) + tol - r.arr > maxq
+NoSpuriousReject(rs, si, maxq, tol) == \A r \in rs : r.res = "reject" => Justified(r, rs, si, maxq, tol)
 =============================================================================
